@@ -335,7 +335,7 @@ def from_image_str(s):
 
 
 # ---- N1..N4 penalty (ISO/IEC 18004 7.8.3.1) on a finished symbol
-def penalty_variants(m):
+def _penalty(m):
     """all admissible readings of the penalty: N3 in {pattern with 4 light modules on a side, modules outside the
     symbol counting as light, scored once per occurrence (zxing) or once per side (Nayuki); strict: the light
     modules must lie inside the symbol} x N4 in {floor, ceil-1 at exact 5% boundaries}.  Returns a list of totals."""
@@ -374,7 +374,17 @@ def penalty_variants(m):
     dev = abs(dark * 20 - total * 10)
     k_floor = dev // total
     k_ceilm1 = max(0, -(-dev // total) - 1)
-    return [n1 + n2 + n3 + 10 * k for n3 in (once, sides, strict) for k in (k_floor, k_ceilm1)]
+    return {'n1': n1, 'n2': n2, 'n3': [once, sides, strict], 'n4': [10 * k_floor, 10 * k_ceilm1]}
+
+
+def penalty_variants(m):
+    p = _penalty(m)
+    return [p['n1'] + p['n2'] + n3 + n4 for n3 in p['n3'] for n4 in p['n4']]
+
+
+def penalty_parts(m):
+    """the four features separately: N1, N2 exact; N3 and N4 as the lists of admissible readings"""
+    return _penalty(m)
 
 
 def penalty(m):
